@@ -24,6 +24,10 @@ def parse_cases(text):
         elif line.startswith("STEP "):
             op, res, obs = line[5:].split(" @@ ")
             cur["steps"].append((op, int(res), obs))
+        elif line.startswith("CSTEP "):
+            cur.setdefault("cobs", []).append(line.split(" @@ ", 1)[1])
+        elif line.startswith("HUNG "):
+            cur["hung"] = line[5:]
         elif line.startswith("BDEF "):
             _, n, b = line.split(" ", 2)
             cur["bdefs"].append((n, b))
@@ -93,6 +97,8 @@ def run_harness(c, binary, seed, ncases, nops, extra=(), batch=5, workers=6, bas
                 sub = lambda t: pat.sub(lambda m: ren.get(m.group(0), m.group(0)), t)
                 c_["bdefs"] = [(ren[n], b_) for n, b_ in c_["bdefs"]]
                 c_["steps"] = [(sub(op), res, sub(obs)) for op, res, obs in c_["steps"]]
+                if "cobs" in c_:
+                    c_["cobs"] = [sub(o) for o in c_["cobs"]]
                 c_["init"] = (c_["init"][0], sub(c_["init"][1])) if c_["init"] else None
                 cases.append(c_)
             if rc != 0 or any(c_["panic"] for c_ in cs):
@@ -368,3 +374,86 @@ def mirror_check(c, prop_file, monitors, what, quick=(40, 30), thorough=(600, 40
         "input_distribution": stats,
     })
     return cases, crashes, results
+
+
+# ---------------------------------------------------------------- concurrent callers
+CONC_MONITORS = {
+    # evaluated on the observation list of a case (no model run: the interleaving of concurrent callers has no
+    # sequential counterpart to compare with; the monitors are statements about every observation / about the streams)
+    "c05": "first_bad c05_obs_ok 0 @OBS@",
+    "c06": "first_bad c06_obs_ok 0 @OBS@",
+    "c04": "c04_trace_ok @INITH@ None @OBS@",
+    "c11g": "c11_g_bad 0 [] @OBS@",
+    "c11sm": "c11_sm_bad 0 None @OBS@",
+    "c11cur": "c11_cur_bad 0 [] None @OBS@",
+}
+
+
+def mirror_concurrent(c, monitors, what, quick=(12, 8), thorough=(120, 12)):
+    """Batches of overlapping vote messages delivered by CONCURRENT callers of the real mirror, some of which give up
+    (context cancelled) while the kernel works on their request; after every batch the kernel must still answer, and the
+    Coq monitors judge the observations (views, stores, what the consumers received). Reports concrete violations only."""
+    binary, blog = c.go_build("mirror")
+    if binary is None:
+        c.fail_obligation("harness-build", blog[-1500:])
+        return
+    ncases, nops = quick if c.tier == "quick" else thorough
+    cases, stats, crashes = run_harness(c, binary, c.seed + 77, ncases, nops, extra=["-consumers", "-concurrent"], batch=3, base=300000)
+    for cr in crashes[:2]:
+        m = re.search(r"panic: (.*)", cr["stderr"])
+        c.report("concurrent-crash", "%s: the real mirror died under concurrent callers: %s" % (what, (m.group(1) if m else "exit %s" % cr["rc"])[:200]),
+                 {"batch_seed": cr["batch_seed"], "stderr": cr["stderr"][-1200:],
+                  "how": "bin/h_mirror -seed %d -cases 3 -ops %d -consumers -concurrent" % (cr["batch_seed"], nops)})
+    for k in cases:
+        if k.get("hung"):
+            c.report("concurrent-hang", "%s: %s" % (what, k["hung"][:300]),
+                     {"batch_seed": k["batch_seed"], "batch_case": k["batch_idx"],
+                      "how": "bin/h_mirror -seed %d -cases %d -ops %d -consumers -concurrent" % (k["batch_seed"], k["batch_idx"] + 1, nops)})
+    usable = [k for k in cases if k.get("cobs") and k["init"]]
+    okm, mlog = c.coq_make(["Model/MirrorObs.vo", "Monitors/MirrorM.vo"])
+    bad = []
+    if okm and usable:
+        from concurrent.futures import ThreadPoolExecutor
+        shard = 3
+        shards = [usable[i:i + shard] for i in range(0, len(usable), shard)]
+
+        def work(a):
+            si, sh = a
+            body = PRELUDE % MON_IMPORT
+            for k in sh:
+                for n, b in k["bdefs"]:
+                    body += "Definition %s : list N := %s.\n" % (n, b)
+                names = {}
+                for o in k["cobs"]:
+                    if o not in names:
+                        names[o] = "cob%d_%d" % (k["idx"], len(names))
+                        body += "Definition %s : tr := %s.\n" % (names[o], o)
+                body += "Definition cobs_%d : list tr := [%s].\n" % (k["idx"], "; ".join(names[o] for o in k["cobs"]))
+                for m in monitors:
+                    e = CONC_MONITORS[m].replace("@OBS@", "cobs_%d" % k["idx"]).replace("@INITH@", str(k["init"][0]))
+                    body += "Definition cm_%s_%d := Eval vm_compute in %s.\nPrint cm_%s_%d.\n" % (m, k["idx"], e, m, k["idx"])
+            return sh, c.coq_eval("%s_conc_%d" % (c.pid.lower(), si), body)
+        with ThreadPoolExecutor(max_workers=6) as ex:
+            for sh, (ok, out) in ex.map(work, enumerate(shards)):
+                if not ok:
+                    c.fail_obligation("cases-eval (concurrent)", out[-1500:])
+                    continue
+                for k in sh:
+                    for m in monitors:
+                        mm = re.search(r"cm_%s_%d\s*=\s*(.*?)\n\s*:" % (m, k["idx"]), out, flags=re.S)
+                        val = mm.group(1).strip() if mm else "?"
+                        if mon_failed(val):
+                            bad.append((k, m, val))
+    seen = set()
+    for k, m, val in bad:
+        if m in seen:
+            continue
+        seen.add(m)
+        c.report("concurrent-%s-monitor" % m, "%s: monitor %s fails on the real mirror's observations after concurrent callers (case seed %d): %s" % (what, m, k["seed"], val[:60]),
+                 {"batch_seed": k["batch_seed"], "batch_case": k["batch_idx"], "monitor": m, "monitor_value": val,
+                  "observations": len(k["cobs"]),
+                  "how": "bin/h_mirror -seed %d -cases %d -ops %d -consumers -concurrent" % (k["batch_seed"], k["batch_idx"] + 1, nops)})
+    c.coverage["concurrent_callers"] = {"cases": len(cases), "observations": sum(len(k.get("cobs", [])) for k in cases),
+                                        "batches": stats.get("concurrent_batches", 0), "calls": stats.get("concurrent_calls", 0),
+                                        "monitor_failures": len(bad), "hung": sum(1 for k in cases if k.get("hung")),
+                                        "crashes": len(crashes), "monitors": list(monitors)}
